@@ -1,6 +1,7 @@
 import Asn1cModel.Proofs.PerSupport
 import Asn1cModel.Proofs.PerSmall
 import Asn1cModel.Proofs.OerSupport
+import Asn1cModel.Proofs.Native
 /-
   L1 (UPER / OER primitive layer) property theorems, feeding C01 (round trip), C02 (byte-exact
   standard wire format) and C04 (decoders never read out of bounds).
@@ -434,11 +435,36 @@ theorem INTEGER_encode_oer_unsigned (width : Nat) (st : Bytes) (h : st.wf) (hne 
   intEncodeOer_unsigned width st h hne hlen
 
 /-- C01: `INTEGER_decode_oer` reads back what `INTEGER_encode_oer` wrote under the same `(width, positive)`:
-    an INTEGER with the same value, exactly the produced octets consumed, whatever follows -/
+    exactly the produced octets are consumed, whatever follows, and the INTEGER obtained holds the *canonical
+    contents* of the encoded one (`strip st`: X.690 §8.3.2 minimal form, same value) — the fixed-width padding /
+    sign extension is not kept (finding F36 repaired), so `INTEGER_compare`, which compares minimal forms, sees
+    the same INTEGER as after `asn_long2INTEGER` or a DER decode -/
 theorem INTEGER_oer_roundtrip (width : Nat) (positive : Bool) (st out rest : Bytes) (h : st.wf)
     (hlen : st.length ≤ 2 ^ 63 - 1) (he : intEncodeOer width positive st = some out) :
-    ∃ c, intDecodeOer width positive (out ++ rest) = .ok c out.length ∧ c.wf ∧ Spec.twosVal c = Spec.twosVal st :=
-  intDecodeOer_intEncodeOer width positive st out rest h hlen he
+    intDecodeOer width positive (out ++ rest) = .ok (Asn1c.Impl.Integer.strip st) out.length ∧
+    Spec.MinimalTwos (Asn1c.Impl.Integer.strip st) ∧
+    Spec.twosVal (Asn1c.Impl.Integer.strip st) = Spec.twosVal st := by
+  obtain ⟨c, hd, hw, hne, hm, hv⟩ := intDecodeOer_intEncodeOer width positive st out rest h hlen he
+  have hst : st ≠ [] := by intro e; rw [e] at he; simp [intEncodeOer] at he
+  have : c = Asn1c.Impl.Integer.strip st :=
+    Asn1c.Proofs.Native.minimal_unique c _ hw (Asn1c.Proofs.Integer.strip_wf st h) hne
+      (Asn1c.Proofs.Integer.strip_ne_nil st hst) hm (Asn1c.Proofs.Integer.strip_minimal st)
+      (by rw [hv, Asn1c.Proofs.Integer.strip_val st h])
+  rw [this] at hd
+  exact ⟨hd, Asn1c.Proofs.Integer.strip_minimal st, Asn1c.Proofs.Integer.strip_val st h⟩
+
+/-- C01 (F36 repaired): whatever octets `INTEGER_decode_oer` accepts, canonical or not, the contents it stores are
+    non-empty octets in the minimal form of X.690 §8.3.2 -/
+theorem INTEGER_decode_oer_minimal (width : Nat) (positive : Bool) (buf c : Bytes) (used : Nat) (hb : buf.wf)
+    (h : intDecodeOer width positive buf = .ok c used) : c ≠ [] ∧ Spec.MinimalTwos c ∧ c.wf :=
+  intDecodeOer_minimal width positive buf c used hb h
+
+/-- the former F36 witness: `INTEGER (-2147483648..4294967294)` (8 octets, signed) holding -2147483648 is stored as
+    `80000000`, the contents `asn_long2INTEGER` produces, and `INTEGER_compare` answers 0 -/
+theorem INTEGER_decode_oer_F36_witness :
+    intDecodeOer 8 false [0xff, 0xff, 0xff, 0xff, 0x80, 0x00, 0x00, 0x00] = .ok [0x80, 0x00, 0x00, 0x00] 8 ∧
+    Asn1c.Impl.Integer.compare [0x80, 0x00, 0x00, 0x00] (Asn1c.Impl.Integer.imax2INTEGER (-2147483648)) = some 0 :=
+  intDecodeOer_F36_witness
 
 /-- C04: `INTEGER_decode_oer` never reads outside its input, for every constraint and every octet string
     (finding F5 repaired: the zero length determinant of a variable-size integer is rejected before the `msb`
